@@ -11,9 +11,11 @@
 //!
 //! Generators (pure functions of the `vcore::Rng` handed in):
 //! * [`gen_header`]`(&mut Rng, &HeaderOpts) -> HeaderDesc` — `HeaderOpts { fileformat, max_samples,
-//!   idx: IdxMode::{None,Natural,Permuted,Sparse}, model, extras, min_contig_len, v45_numbers }`;
+//!   idx: IdxMode::{None,Natural,Permuted,Sparse}, model, extras, min_contig_len, v45_numbers }`
+//!   (build with `HeaderOpts::full() / ::bcf(idx) / ::common() / ::indexable(min_len)` or
+//!   `..Default::default()`: fields may be added);
 //! * [`gen_record`]`(&mut Rng, &HeaderDesc, &RecOpts) -> RecDesc` — `RecOpts { model:
-//!   Model::{Full,Bcf,Common}, nan, invalid_ints, rare }`; consistent with the header (Number=A/R/G
+//!   Model::{Full,Bcf,Common}, nan, invalid_ints, rare }` (`RecOpts::full() / ::bcf() / ::common()`); consistent with the header (Number=A/R/G
 //!   lengths follow the ALT count, FORMAT keys / sample count follow the header, first-allele
 //!   phasing is the implied one before VCF 4.4);
 //! * [`coordinate_sorted_set`]`(&mut Rng, &HeaderDesc, n, &RecOpts) -> Vec<RecDesc>` — sorted by
@@ -127,5 +129,97 @@ struct DisplayAsDebug<'a>(&'a str);
 impl std::fmt::Debug for DisplayAsDebug<'_> {
     fn fmt(&self, f: &mut std::fmt::Formatter<'_>) -> std::fmt::Result {
         f.write_str(&self.0.replace(' ', "-"))
+    }
+}
+
+#[cfg(test)]
+mod tests {
+    use super::*;
+    use vcore::Rng;
+
+    #[test]
+    fn independent_writer_and_splitter_are_inverse() {
+        for seed in 0..40u64 {
+            let mut rng = Rng::new(seed, 1, 0);
+            let h = gen_header(&mut rng, &HeaderOpts::full());
+            for _ in 0..100 {
+                let mut r = gen_record(&mut rng, &h, &RecOpts::full());
+                let line = to_vcf_line(&r, &h);
+                let mut back = rec_from_line(&line, &h).unwrap_or_else(|e| panic!("{e}: {}", String::from_utf8_lossy(&line)));
+                if h.fileformat < (4, 4) {
+                    canon_first_phasing(&mut r);
+                    canon_first_phasing(&mut back);
+                }
+                let d = diff_records(&r, &back, &Tol::TEXT);
+                assert!(d.is_empty(), "{d:?}\n{}", String::from_utf8_lossy(&line));
+            }
+            let text = to_vcf_header(&h);
+            let hb = header_from_text(&text).unwrap();
+            assert!(diff_headers(&h, &hb).is_empty(), "{:?}", diff_headers(&h, &hb));
+        }
+    }
+
+    #[test]
+    fn percent_coding() {
+        for s in ["a;b=c%d,e:f\tg\r\n", ".", "..", "%41", "100%", "%", "é中", "%2"] {
+            assert_eq!(percent_decode(&percent_encode(s)).as_deref(), Some(s));
+        }
+        assert_eq!(percent_encode("."), "%2E");
+        assert_eq!(percent_encode("a:b"), "a%3Ab");
+        assert_eq!(percent_decode("%3a%3B"), Some(":;".to_string()));
+    }
+
+    #[test]
+    fn span_rules() {
+        let mut r = RecDesc { chrom: "1".into(), pos: 100, ids: vec![], reference: "ACG".into(), alts: vec!["<DEL>".into()], qual: None, filters: vec![], info: vec![], format: vec![], samples: vec![] };
+        assert_eq!(span(&r, (4, 3)), Ok((100, 102)));
+        r.info = vec![("END".into(), Some(Val::Int(500))), ("SVLEN".into(), Some(Val::Ints(vec![Some(1000)])))];
+        assert_eq!(span(&r, (4, 4)), Ok((100, 500)));
+        assert_eq!(span(&r, (4, 5)), Ok((100, 1099)));
+        r.format = vec!["LEN".into()];
+        r.samples = vec![vec![Some(Val::Int(2000))], vec![None]];
+        assert_eq!(span(&r, (4, 5)), Ok((100, 2099)));
+        r.pos = 0;
+        assert_eq!(span(&r, (4, 5)), Ok((1, 2000)));
+    }
+
+    #[test]
+    fn sorted_sets_are_sorted_with_unique_ids() {
+        for seed in 0..10u64 {
+            let mut rng = Rng::new(seed, 2, 0);
+            let h = gen_header(&mut rng, &HeaderOpts::indexable(1 << 28));
+            let set = coordinate_sorted_set(&mut rng, &h, 300, &RecOpts::common());
+            assert!(set.len() >= 300);
+            let order = |r: &RecDesc| (h.contigs.iter().position(|c| c.id == r.chrom).unwrap(), r.pos);
+            assert!(set.windows(2).all(|w| order(&w[0]) <= order(&w[1])));
+            let mut ids: Vec<&String> = set.iter().map(|r| &r.ids[0]).collect();
+            ids.sort();
+            ids.dedup();
+            assert_eq!(ids.len(), set.len());
+            for r in &set {
+                let (s, e) = span(r, h.fileformat).unwrap();
+                assert!(s == r.pos && e >= s);
+                if let Some(l) = h.contigs.iter().find(|c| c.id == r.chrom).and_then(|c| c.length) {
+                    assert!(r.pos as usize <= l);
+                }
+            }
+        }
+    }
+
+    #[test]
+    fn builders_accept_every_generated_value() {
+        for seed in 0..20u64 {
+            let mut rng = Rng::new(seed, 3, 0);
+            for o in [HeaderOpts::full(), HeaderOpts::bcf(IdxMode::Sparse), HeaderOpts::common()] {
+                let h = gen_header(&mut rng, &o);
+                let nh = to_noodles_header(&h).unwrap();
+                assert!(diff_headers(&h, &header_desc_of(&nh)).is_empty());
+                for _ in 0..50 {
+                    let r = gen_record(&mut rng, &h, &RecOpts::full());
+                    let b = to_record_buf(&r);
+                    assert!(diff_records(&r, &rec_desc_of_buf(&b), &Tol::EXACT).is_empty());
+                }
+            }
+        }
     }
 }
